@@ -144,7 +144,7 @@ class Headers(Driver):
 
 # ---------------------------------------------------------------- C14.block
 
-TX_KINDS = ("legacy", "witness", "wide", "big")
+TX_KINDS = ("legacy", "witness", "wide", "big", "coinbase")
 
 
 def tx_desc_of_kind(kind, k):
@@ -157,6 +157,13 @@ def tx_desc_of_kind(kind, k):
     if kind == "big":
         d = simple_tx_desc(1, 2, ("i253",), salt=k)
         d["outs"][0]["script"] = [253, k]
+        return d
+    if kind == "coinbase":
+        # what every post-segwit block starts with: the null outpoint and a one-item witness (the reserved value)
+        d = simple_tx_desc(1, 2, ("x",), salt=k)
+        d["ins"][0]["prev"] = "00" * 32
+        d["ins"][0]["index"] = U32
+        d["ins"][0]["witness"] = [[32, 0]]
         return d
     raise ValueError(kind)
 
@@ -263,8 +270,27 @@ class Blocks(Driver):
                 b = Block.parse(io.BytesIO(ref), check_merkle_hash=False)
             else:
                 b = Block.from_bin(ref)
+                if must_reject:
+                    pass
+                else:
+                    # the other routes that parse a full block must agree (and, below, refuse what from_bin refuses)
+                    for rname, rf in (("parse(stream)", lambda: Block.parse(io.BytesIO(ref))),
+                                      ("message block", lambda: net.message.parse("block", ref)["block"])):
+                        ob = rf()
+                        if ob.as_bin() != b.as_bin() or ob.id() != b.id() or type(ob) is not Block:
+                            return BAD("block-parse-differs", "%s parses the same block as from_bin" % rname,
+                                       "%s id %s" % (type(ob).__name__, ob.id()), clause="block-parse-route", kind=kind)
         except Exception as e:
             if must_reject:
+                # every other route must refuse it too
+                for rname, rf in (("parse(stream)", lambda: Block.parse(io.BytesIO(ref))),
+                                  ("message block", lambda: net.message.parse("block", ref))):
+                    try:
+                        rf()
+                    except Exception:
+                        continue
+                    return BAD("bad-root-accepted", "rejected on every route: transactions hash to %s, header says %s" % (new_root.hex(), H["merkle"].hex()),
+                               "%s parsed it without error" % rname, clause="merkle-reject-route", kind=kind)
                 if type(e).__name__ == "BadMerkleRootError":
                     return OK("reject:" + label)
                 # still a rejection, which is all the property demands; kept apart in the statistics
@@ -358,10 +384,18 @@ class MerkleRoots(Driver):
         try:
             got = merkle(arg)
             got_t = merkle(list(hs), wire.dsha256)
+            got_again = merkle(arg)           # the caller keeps using its list: same list object, second call
+            got_tuple = merkle(tuple(hs))
         except Exception as e:
             return BAD("merkle-raises", want.hex(), exc(e), clause="merkle-root")
         if bytes(got) != want or bytes(got_t) != want:
             return BAD("merkle-differs", want.hex(), bytes(got).hex(), n=2, clause="merkle-root")
+        if arg != hs:
+            return BAD("merkle-mutates-argument", "the caller's list of %d hashes is left alone" % n, "list now has %d entries" % len(arg),
+                       n=4, clause="merkle-argument-mutated")
+        if bytes(got_again) != want or bytes(got_tuple) != want:
+            return BAD("merkle-differs", want.hex(), "second call on the same list / tuple argument: %s / %s" % (bytes(got_again).hex(), bytes(got_tuple).hex()),
+                       n=4, clause="merkle-root")
         odd = False
         k = n
         while k > 1:
@@ -391,6 +425,38 @@ def proof_corruptions(nh, nbits, nflagbytes):
     yield ["root", 0]
     yield ["root", 255]
     yield ["extra-zero-flag-byte"]      # not listed by the property: recorded only
+    for v in (0x01, 0x80, 0xff):
+        yield ["extra-flag-byte", v]    # set bits after the last consumed one, in a further byte
+
+
+def odd_levels(n):
+    """levels (0 = leaves) of the merkle tree over n leaves that have an odd number (> 1) of nodes"""
+    out, level, k = [], 0, n
+    while k > 1:
+        if k % 2:
+            out.append(level)
+        k = (k + 1) // 2
+        level += 1
+    return out
+
+
+def forged_list(txids, level):
+    """the longer transaction list with the same merkle root obtained by repeating the last node of an odd level"""
+    n = len(txids)
+    k = -(-n // (1 << level))              # nodes at that level
+    m = n - (k - 1) * (1 << level)         # leaves under its last node
+    def full(leaves, lv):
+        # 2^lv leaves with the same subtree root as `leaves` under the duplicate-the-last rule
+        if lv == 0:
+            return list(leaves)
+        half = 1 << (lv - 1)
+        left, right = leaves[:half], leaves[half:]
+        return full(left, lv - 1) + full(right or left, lv - 1)
+    last = full(list(txids[n - m:]), level)
+    out = list(txids[:n - m]) + last + last
+    if refmerkle.merkle_root(out) != refmerkle.merkle_root(txids):
+        raise ModelInvalid("forged list does not keep the root (n=%d level=%d)" % (n, level))
+    return out
 
 
 def classify_reject(e):
@@ -413,7 +479,8 @@ class Proofs(Driver):
         self.seed_label = "%d" % seed
         self.bound = dict(max_transactions=self.nmax, subsets="all 2^n", corruptions=[
             "each hash: bit 0 / bit 255 flipped", "each hash removed", "fresh hash inserted at each position", "each hash duplicated in place",
-            "each padding bit set", "header merkle root bit 0 / 255 flipped", "(recorded only) extra zero flag byte"], coin="BTC")
+            "each padding bit set", "one more flag byte 0x01 / 0x80 / 0xff", "header merkle root bit 0 / 255 flipped",
+            "repeated-last-node forgeries (every odd level, every match set for n'<=10, <=2 matches beyond)", "(recorded only) extra zero flag byte"], coin="BTC")
 
     def txids(self, n):
         return [wire.sha256(("c14.proof|%s|%d|%d" % (self.seed_label, n, i)).encode()) for i in range(n)]
@@ -438,6 +505,14 @@ class Proofs(Driver):
         for c in proof_corruptions(len(hashes), nbits, len(flags)):
             case = dict(base, corrupt=c)
             yield case, self.run(case)
+        if mask == 0:
+            # forged proofs are enumerated once per n (they have their own match set)
+            for level in odd_levels(n):
+                n2 = len(forged_list(txids, level))
+                masks = range(1 << n2) if n2 <= 10 else [m for m in range(1 << n2) if bin(m).count("1") <= 2]
+                for m2 in masks:
+                    case = dict(base, corrupt=["forged-dup", level, m2])
+                    yield case, self.run(case)
 
     def run(self, case):
         txids = [bytes.fromhex(t) for t in case["txids"]]
@@ -472,13 +547,25 @@ class Proofs(Driver):
             hroot = bytes(h)
         elif kind == "extra-zero-flag-byte":
             flags.append(0)
+        elif kind == "extra-flag-byte":
+            flags.append(c[1])
+        elif kind == "forged-dup":
+            # CVE-2012-2459 shape: the last node of an odd level repeated as if the block had more transactions; same root,
+            # total_transactions inflated, hashes added.  Rejectable exactly when the proof computes both equal siblings.
+            txids2 = forged_list(txids, c[1])
+            n = len(txids2)
+            hashes, flags, nbits = refmerkle.build_proof(txids2, [(c[2] >> i) & 1 for i in range(n)])
+            hashes, flags = list(hashes), list(flags)
         elif kind != "none":
             raise ValueError(kind)
         H = {"version": 2, "prev": bytes(range(32)), "merkle": hroot, "time": 1400000000, "bits": 0x1b0404cb, "nonce": n}
+        undetectable = False
         if kind != "none":
             try:
                 refmerkle.verify_proof(n, hashes, flags, hroot)
-                raise ModelInvalid("reference verifier accepts corruption %r of n=%d mask=%d" % (c, n, mask))
+                if kind != "forged-dup":
+                    raise ModelInvalid("reference verifier accepts corruption %r of n=%d mask=%d" % (c, n, mask))
+                undetectable = True       # the repeated node is supplied as one hash or not touched: nothing to detect
             except refmerkle.ProofError:
                 pass
         fields = dict(header=H, total_transactions=n, hashes=hashes, flags=flags)
@@ -507,6 +594,8 @@ class Proofs(Driver):
                 return BAD("wrong-header-class", "header parsed with this network's block class %s.%s" % (net.block.__module__, net.block.__name__),
                            "%s.%s" % (type(d["header"]).__module__, type(d["header"]).__name__), clause="proof-header-class")
         except Exception as e:
+            if undetectable:
+                return OK("info:forged-dup-undetectable:rejected")
             if kind == "none":
                 return BAD("honest-rejected", "accepted, matched ids %s" % [m.hex()[:8] for m in matched], exc(e), clause="proof-accept")
             return OK("reject:%s:%s" % (kind, classify_reject(e)))
@@ -526,6 +615,8 @@ class Proofs(Driver):
             return OK("accept:%s:matched-%s" % (shape, mclass), n=3)
         if kind == "extra-zero-flag-byte":
             return OK("info:extra-zero-flag-byte:accepted")
+        if undetectable:
+            return OK("info:forged-dup-undetectable:accepted")
         return BAD("corruption-accepted", "rejected (%s)" % kind, "accepted, tx_hashes=%s" % [g.hex()[:8] for g in got], clause="proof-reject", kind=kind)
 
     def nontrivial(self, cls):
